@@ -38,10 +38,17 @@ type Case struct {
 	Ctrs     []int  `json:"ctrs"`
 	SpareCap bool   `json:"spare_cap"` // slices have capacity beyond their length (holding foreign objects)
 	Handler  string `json:"handler"`   // "sync", "none", "error", "updates"
+	// StaleAt > 0: the connection-closed notification of an EARLIER session of the same stub is
+	// delivered between message StaleAt and StaleAt+1 of this synchronisation
+	StaleAt int `json:"stale_at,omitempty"`
 }
 
 func (c *Case) String() string {
-	return fmt.Sprintf("%s pods=%s ctrs=%s spare=%v handler=%s", c.Family, sizes(c.Pods), sizes(c.Ctrs), c.SpareCap, c.Handler)
+	st := ""
+	if c.StaleAt > 0 {
+		st = fmt.Sprintf(" stale-close-notification-after-message=%d", c.StaleAt)
+	}
+	return fmt.Sprintf("%s pods=%s ctrs=%s spare=%v handler=%s%s", c.Family, sizes(c.Pods), sizes(c.Ctrs), c.SpareCap, c.Handler, st)
 }
 
 func sizes(s []int) string {
@@ -80,6 +87,8 @@ type transport struct {
 	minReject int // smallest number of objects in a rejected message
 	exceeded  bool
 	envelope  int
+	staleAt   int
+	stale     func()
 }
 
 func varintLen(n int) int {
@@ -92,6 +101,9 @@ func varintLen(n int) int {
 }
 
 func (t *transport) Synchronize(ctx context.Context, req *api.SynchronizeRequest) (*api.SynchronizeResponse, error) {
+	if t.staleAt > 0 && t.msgs == t.staleAt && t.stale != nil {
+		t.stale()
+	}
 	t.msgs++
 	if t.msgs > t.horizon {
 		t.exceeded = true
@@ -175,13 +187,14 @@ func run(c *Case) (viol []string, sig string, msgs int) {
 		u2.SetLinuxCPUShares(222)
 		sp.ret = []*api.ContainerUpdate{u1, u2}
 	}
-	st, err := stub.New(pl, stub.WithPluginName("sync"), stub.WithPluginIdx("10"))
+	st, err := stub.New(pl, stub.WithPluginName("sync"), stub.WithPluginIdx("10"), stub.WithOnClose(func() {}))
 	if err != nil {
 		return []string{"stub.New: " + err.Error()}, "C09|machinery", 0
 	}
 	a, b := net.Pipe()
 	defer b.Close()
 	tr := &transport{svc: st.(api.PluginService), horizon: 4*(len(c.Pods)+len(c.Ctrs)) + 64, minReject: -1}
+	tr.staleAt, tr.stale = c.StaleAt, func() { stub.VerifStaleConnClosed(st) }
 	tr.envelope = proto.Size(&ttrpc.Request{Service: "nri.pkg.api.v1alpha1.Plugin", Method: "Synchronize", TimeoutNano: 1999999999})
 	vp, err := adaptation.VerifConnectedPlugin(sharedEnv.R, a, "10", "sync", api.ValidEvents, tr)
 	if err != nil {
@@ -436,6 +449,11 @@ func main() {
 	}
 	multi := int64(0)
 	k := 0
+	staleRuns := 0
+	staleBudget := 400 // quick: the first 400 boundaries met; thorough: all
+	if f.Thorough() {
+		staleBudget = -1
+	}
 	generate(f, res.Bounds, func(c *Case) {
 		v, sig, msgs := run(c)
 		res.Evaluations++
@@ -448,14 +466,44 @@ func main() {
 		if k%3000 == 7 {
 			res.Sample(map[string]any{"case": c.String(), "messages": msgs})
 		}
-		if len(v) > 0 {
+		report := func(c *Case, v []string, sig string) {
 			shape := "few-large"
 			if len(c.Pods)+len(c.Ctrs) > 40 {
 				shape = "many-small"
 			}
+			if c.StaleAt > 0 {
+				shape += "|stale-close-notification"
+			}
 			res.Add(sig+"|"+shape, strings.Join(v, "\n  ")+"\n  case: "+c.String(), c)
 		}
+		if len(v) > 0 {
+			report(c, v, sig)
+			return
+		}
+		// a split synchronisation: the late close notification of an earlier session of the same stub
+		// arrives between two messages (every boundary up to 4, then the last one)
+		if msgs > 1 && lastRunOK && staleBudget != 0 {
+			for at := 1; at < msgs; at++ {
+				if at > 4 && at != msgs-1 {
+					continue
+				}
+				if staleBudget > 0 {
+					staleBudget--
+				}
+				c2 := *c
+				c2.StaleAt = at
+				v2, sig2, m2 := run(&c2)
+				res.Evaluations++
+				res.States += int64(m2 + 1)
+				res.Transitions += int64(m2 + 1)
+				staleRuns++
+				if len(v2) > 0 {
+					report(&c2, v2, sig2)
+				}
+			}
+		}
 	})
+	res.Bounds["runs_with_a_stale_close_notification_between_two_messages"] = staleRuns
 	res.Distinct = multi
 	res.Write(f)
 }
